@@ -38,12 +38,12 @@ def is_setlike(M, fn, e, setvars):
 
 def check(ctx):
     M = ctx.M
-    set_order(ctx)
-    fs_order(ctx)
-    randomness(ctx)
-    shared_state(ctx)
-    memoisation(ctx)
-    ordering_ops(ctx)
+    ctx.sub(set_order)
+    ctx.sub(fs_order)
+    ctx.sub(randomness)
+    ctx.sub(shared_state)
+    ctx.sub(memoisation)
+    ctx.sub(ordering_ops)
 
 
 # ------------------------------------------------------------------------------------------------ sets
